@@ -41,6 +41,7 @@ class Path:
         if self.guards:
             f = Implies(And(*self.guards), f)
         self.hyps.append(f)
+        return f
 
 
 class Namespace:
@@ -87,6 +88,7 @@ class Evaluator:
         self.modname = modname
         self.cls_name = cls_name
         self.qdepth = 0
+        self.bound = []
 
     # -- helpers --------------------------------------------------------
     def oblige(self, path, kind, site, goal, exc=None):
@@ -443,11 +445,13 @@ class Evaluator:
         saved = dict(path.env)
         path.env.update(bind(q))
         self.qdepth += 1
+        self.bound.append(q)
         try:
             conds = [dom(q)] + [self.ev_bool(c, path, spec) for c in g.ifs]
             inner = self.quantify(gens[1:], body_fn, path, spec, universal)
         finally:
             self.qdepth -= 1
+            self.bound.pop()
         path.env.clear()
         path.env.update(saved)
         if universal:
@@ -469,7 +473,7 @@ class Evaluator:
             self.qdepth -= 1
         path.env.clear()
         path.env.update(saved)
-        if self.qdepth > 0 or self.eng.in_axiom:
+        if self.eng.in_axiom or not self.is_closed(f):
             return V(('set', probe), z3.Lambda([y], f))
         # top level: a named set with its defining axiom (friendlier to the solver than a lambda);
         # the same text over the same state denotes the same constant
@@ -495,6 +499,46 @@ class Evaluator:
         if not any(ax.eq(h) for h in path.hyps):
             path.hyps.append(ax)
         return V(('set', probe), sc)
+
+    def is_closed(self, term):
+        """True when the term mentions none of the currently bound variables."""
+        if not self.bound:
+            return True
+        ids = {b.get_id() for b in self.bound}
+        seen, stack = set(), [term]
+        while stack:
+            x = stack.pop()
+            if x.get_id() in seen:
+                continue
+            seen.add(x.get_id())
+            if x.get_id() in ids:
+                return False
+            if z3.is_quantifier(x):
+                stack.append(x.body())
+            elif z3.is_app(x):
+                stack.extend(x.children())
+        return True
+
+    def named_set_of_seq(self, seq, path):
+        """set(seq) as a named constant with both directions of its definition (cached per sequence term)."""
+        key = ('setof', seq.t.get_id())
+        hit = self.eng.set_cache.get(key)
+        if hit is None:
+            et = seq.ty[1]
+            sc = z3.FreshConst(S.sort_of(('set', et)), 'setof')
+            y = z3.FreshConst(S.sort_of(et), 'sy')
+            m = z3.FreshInt('sm')
+            n = S.seq_n(seq)
+            ax = And(ForAll([y], Select(sc, y) == Exists([m], And(0 <= m, m < n, Select(S.seq_arr(seq), m) == y)),
+                            patterns=[Select(sc, y)]),
+                     S.forall_p([m], Implies(And(0 <= m, m < n), Select(sc, Select(S.seq_arr(seq), m))),
+                                [Select(S.seq_arr(seq), m)]))
+            hit = (sc, ax)
+            self.eng.set_cache[key] = hit
+        sc, ax = hit
+        if not any(ax.eq(h) for h in path.hyps):
+            path.hyps.append(ax)
+        return V(('set', seq.ty[1]), sc)
 
     def state_key(self, node, path):
         def vid(v):
@@ -582,6 +626,7 @@ class Engine:
         self.in_axiom = False
         self.define_result = False
         self.result_defined = False
+        self.labels = {}                # id of a hypothesis formula -> clause name (invariants, cuts)
         self.set_cache = {}
         self.assumptions_used = set()
         self.loop_counter = {}
@@ -604,9 +649,12 @@ class Engine:
         if path.guards:
             g = Implies(And(*path.guards), g)
         name = '%s::%s[%s]' % (self.short(), kind, site)
-        self.obligations.append(Obligation(name, path.hyps, g, kind, {'exc': exc}))
-        if kind in ('noraise', 'call-pre', 'assert'):
-            path.assume(goal)
+        clause = site.rsplit(':', 1)[-1]
+        self.obligations.append(Obligation(name, path.hyps, g, kind, {'exc': exc, 'clause': clause}))
+        if kind in ('noraise', 'call-pre', 'assert', 'cut'):
+            f = path.assume(goal)
+            if kind == 'cut':
+                self.labels[f.get_id()] = clause
 
     def add_axiom(self, key, formula):
         if key not in self._axiom_keys:
@@ -985,6 +1033,8 @@ class Engine:
             v = E(0)
             if isinstance(v, VObj) and v.cls == 'SCFG':
                 v = v.f['graph']
+            if isinstance(v, V) and v.ty[0] == 'seq' and not self.in_axiom and ev.is_closed(v.t):
+                return ev.named_set_of_seq(v, path)
             return self.to_set(v)
         if name == 'dict' and not a:
             return ('emptydict',)
@@ -1052,10 +1102,14 @@ class Engine:
             return S.vbool(S.seq_sorted_strict(E(0)))
         if name == 'updated':
             d, k, v = E(0), E(1), E(2)
-            return S.dict_set(d, k.t, v.t)
+            if ev.qdepth > 0 or self.in_axiom:
+                return S.dict_set(d, k.t, v.t)
+            return self.dict_store(d, k.t, v.t, path)
         if name == 'removed':
             d, k = E(0), E(1)
-            return S.dict_del(d, k.t)
+            if ev.qdepth > 0 or self.in_axiom:
+                return S.dict_del(d, k.t)
+            return self.dict_remove(d, k.t, path)
         if name == 'card':
             return S.vint(S.set_card(self.to_set(E(0))))
         if name == 'get':
@@ -1172,11 +1226,32 @@ class Engine:
             if meth == 'pop':
                 kk = E(0)
                 self.add_obligation(path, 'noraise', site, S.dict_has(base, kk.t), 'KeyError')
-                self.assign_to(ev, basenode, S.dict_del(base, kk.t), path)
+                self.assign_to(ev, basenode, self.dict_remove(base, kk.t, path), path)
                 return S.dict_get(base, kk.t)
             if meth == 'copy':
                 return base
         raise Unsupported('method %s on %r' % (meth, base.ty))
+
+    def dict_store(self, d, key, val, path):
+        """d[key] = val as a named dictionary with two-direction triggered frame axioms."""
+        r = S.fresh(d.ty, 'dupd')
+        k = z3.FreshConst(S.sort_of(d.ty[1]), 'dk')
+        dd, dv, rd, rv = S.dict_dom(d), S.dict_val(d), S.dict_dom(r), S.dict_val(r)
+        path.hyps.append(And(Select(rd, key), Select(rv, key) == val))
+        body = Implies(k != key, And(Select(rd, k) == Select(dd, k), Select(rv, k) == Select(dv, k)))
+        for pat in (Select(rv, k), Select(dv, k), Select(rd, k), Select(dd, k)):
+            path.hyps.append(S.forall_p([k], body, [pat]))
+        return r
+
+    def dict_remove(self, d, key, path):
+        r = S.fresh(d.ty, 'ddel')
+        k = z3.FreshConst(S.sort_of(d.ty[1]), 'dk')
+        dd, dv, rd, rv = S.dict_dom(d), S.dict_val(d), S.dict_dom(r), S.dict_val(r)
+        path.hyps.append(Not(Select(rd, key)))
+        body = Implies(k != key, And(Select(rd, k) == Select(dd, k), Select(rv, k) == Select(dv, k)))
+        for pat in (Select(rv, k), Select(dv, k), Select(rd, k), Select(dd, k)):
+            path.hyps.append(S.forall_p([k], body, [pat]))
+        return r
 
     def seq_store(self, base, i, x, n, path):
         """base[i] = x as a named array with two-direction triggered axioms (a bare
@@ -1233,7 +1308,7 @@ class Engine:
                 self.add_obligation(path, 'noraise', ast.unparse(target) + ' = ...', And(0 <= idx.t, idx.t < n), 'IndexError')
                 new = self.seq_store(base, idx.t, self.coerce(val, base.ty[1], ev).t, n, path)
             elif base.ty[0] == 'dict':
-                new = S.dict_set(base, idx.t, self.coerce(val, base.ty[2], ev).t)
+                new = self.dict_store(base, idx.t, self.coerce(val, base.ty[2], ev).t, path)
             else:
                 raise Unsupported('subscript store on %r' % (base.ty,))
             self.assign_to(ev, target.value, new, path)
@@ -1321,6 +1396,13 @@ class Engine:
             for a, d in zip(args[len(args) - len(dflts):], dflts):
                 if a.arg not in vals and a.arg in names:
                     vals[a.arg] = Evaluator(self, m.name).ev(d, path, True)
+        if not spec and not c.pure:
+            for n in list(vals):
+                v = vals[n]
+                if isinstance(v, V) and v.ty[0] in ('block', 'seq') and not z3.is_const(v.t) and self.term_size(v.t) > 3:
+                    cst = S.fresh(v.ty, 'arg_' + n)
+                    path.assume(cst.t == v.t)
+                    vals[n] = cst
         for n in names:
             if n not in vals:
                 raise Unsupported('missing argument %s for %s' % (n, c.qual))
@@ -1510,6 +1592,15 @@ class Engine:
         m = getattr(self, 'st_' + type(st).__name__, None)
         if m is None:
             raise Unsupported('statement ' + type(st).__name__)
+        if self.c.cuts:
+            src = ast.unparse(st)
+            for key, clauses in self.c.cuts.items():
+                if src.startswith(key):
+                    self.bound_cuts.add(key)
+                    env = dict(path.env, old=self.old_ns)
+                    for cn, text in clauses.items():
+                        g = self.spec_formula(ast.parse(text, mode='eval').body, env, path)
+                        self.add_obligation(path, 'cut', '%s:%s' % (key[:40], cn), g)
         return m(st, path)
 
     def st_Pass(self, st, path):
@@ -1652,7 +1743,7 @@ class Engine:
             if base.ty[0] != 'dict':
                 raise Unsupported('del on %r' % (base.ty,))
             self.add_obligation(path, 'noraise', 'del ' + ast.unparse(tgt), S.dict_has(base, idx.t), 'KeyError')
-            self.assign_to(ev, tgt.value, S.dict_del(base, idx.t), path)
+            self.assign_to(ev, tgt.value, self.dict_remove(base, idx.t, path), path)
         return [(path, None)]
 
     def st_Assert(self, st, path):
@@ -1859,7 +1950,8 @@ class Engine:
 
     def assume_inv(self, spec, env, path):
         for cn, text in spec.inv.items():
-            path.assume(self.spec_formula(ast.parse(text, mode='eval').body, env, path))
+            f = path.assume(self.spec_formula(ast.parse(text, mode='eval').body, env, path))
+            self.labels[f.get_id()] = cn
 
     def assume_lemmas(self, spec, env, path):
         """Axiom instances (e.g. the closure principle of reachability) assumed at the loop head."""
@@ -2068,6 +2160,7 @@ class Engine:
                 self.loop_ordinals[id(n)] = seen.get(k, 0)
                 seen[k] = seen.get(k, 0) + 1
         self.bound_loops = set()
+        self.bound_cuts = set()
         self.unproved_termination = []
         self.pruned = []
         # parameter check against the real signature
@@ -2121,6 +2214,9 @@ class Engine:
                 init = self.pre_env[n]
                 fin = p.env.get(n, init)
                 self.frame(p, n, init, fin)
+        for k in c.cuts:
+            if k not in self.bound_cuts:
+                raise Unsupported('contract names a cut point that no longer exists: ' + k)
         # unbound loop specs -> the sidecar no longer matches the code
         for k in c.loops:
             base = k.split('#')[0]
